@@ -173,7 +173,8 @@ def build(case):
 
 # ------------------------------------------------------------------ model input = what the writer looks at
 
-def model_mesh(fd):
+def model_fem(fd):
+    """protocol encoding of the FEMData as the writer sees it: every 2-D variable with its own ids and rows"""
     t = []
     nids = [int(i) for i in fd.nodes.ids]
     t.append(C.enc_list(zip(nids, fd.nodes.data), lambda r: f'{r[0]} {C.enc_list(r[1], ftok)}'))
@@ -181,13 +182,13 @@ def model_mesh(fd):
     t.append(C.enc_list(blocks, lambda b: f'{b[0]} ' + C.enc_list(
         zip(b[1].ids, b[1].data), lambda e: f'{int(e[0])} {C.enc_list([int(n) for n in e[1]])}')))
 
-    def vars_rows(attrs, n):
-        vs = [(k, v.data) for k, v in attrs.items() if len(np.shape(v.data)) == 2]
-        rows = [[ftok(x) for _, d in vs for x in d[k]] for k in range(n)] if vs else []
-        return C.enc_list(vs, lambda v: f'{C.esc(v[0])} {np.shape(v[1])[1]}') + ' ' + C.enc_list(
-            rows, lambda r: C.enc_list(r))
-    t.append(vars_rows(fd.nodal_data, len(nids)))
-    t.append(vars_rows(fd.elemental_data, len(fd.elements.ids)))
+    def tabs(attrs):
+        vs = [(k, v) for k, v in attrs.items() if len(np.shape(v.data)) == 2]
+        return C.enc_list(vs, lambda kv: ' '.join([
+            C.esc(kv[0]), str(np.shape(kv[1].data)[1]), C.enc_list([int(i) for i in kv[1].ids]),
+            C.enc_list(kv[1].data, lambda r: C.enc_list(r, ftok))]))
+    t.append(tabs(fd.nodal_data))
+    t.append(tabs(fd.elemental_data))
     return ' '.join(t)
 
 
@@ -296,7 +297,9 @@ def oracle(ctx, case, report):
         report(sig, f'elements {bad} read back with another type / connectivity, or missing / extra elements',
                {'ids': bad, 'read': [gote.get(e) for e in bad], 'written': [wante[e] for e in bad],
                 'extra': sorted(set(gote) - set(wante))[:3]})
-    # variables
+    # variables (own = the variable's own id order inside the FEMData that was written)
+    mesh_ids = {'nodal': [int(i) for i in fd.nodes.ids], 'elem': [int(i) for i in fd.elements.ids]}
+    attrs = {'nodal': fd.nodal_data, 'elem': fd.elemental_data}
     for key, vars_, extra in (('nodal', case['nodal_vars'], {'NODE'}), ('elem', case['elem_vars'], set())):
         names = {v['name'] for v in vars_}
         if set(obs[key]) - extra != names:
@@ -308,16 +311,28 @@ def oracle(ctx, case, report):
             got = keyed(obs[key][v['name']])
             if got != want:
                 bad = [i for i in want if got.get(i) != want[i]][:3]
-                report(f'values-differ:{key}', f'{key} variable {v["name"]!r}: the value read under id {bad[0]} is not the '
-                       f'value it had before writing', {'variable': v['name'], 'ids': bad,
-                                                        'read': [got.get(i) for i in bad],
-                                                        'written': [want[i] for i in bad]})
+                own = [int(i) for i in attrs[key][v['name']].ids]
+                if own != mesh_ids[key] and sorted(own) == sorted(mesh_ids[key]):
+                    report(f'positional-binding:{key}:{v["how"]}',
+                           f'{key} variable {v["name"]!r} (attached with {v["how"]}; its own id order {own[:4]}.. differs from '
+                           f'the mesh\'s {mesh_ids[key][:4]}..) is written positionally: the value read under id {bad[0]} '
+                           f'belongs to another id', {'variable': v['name'], 'ids': bad, 'read': [got.get(i) for i in bad],
+                                                      'written': [want[i] for i in bad], 'variable_ids': own[:6],
+                                                      'mesh_ids': mesh_ids[key][:6]})
+                else:
+                    report(f'values-differ:{key}', f'{key} variable {v["name"]!r}: the value read under id {bad[0]} is not '
+                           f'the value it had before writing', {'variable': v['name'], 'ids': bad,
+                                                                'read': [got.get(i) for i in bad],
+                                                                'written': [want[i] for i in bad]})
         if key == 'nodal' and 'NODE' in obs[key] and keyed(obs[key]['NODE']) != keyed(obs['nodes']):
             report('values-differ:nodal', 'nodal variable NODE differs from the coordinates', {})
     return fd, text, obs
 
 
-def run_case(ctx, case, stream='main'):
+CFGS = {'fixed': 1, 'upstream': 0}
+
+
+def run_case(ctx, case, cfg_mismatch, stream='main'):
     main = stream == 'main'
 
     def report(sig, what, observed):
@@ -328,20 +343,22 @@ def run_case(ctx, case, stream='main'):
     fd, text, obs = oracle(ctx, case, report)
     if ctx.driver is None or text is None:
         return
-    # (a) writer: real file vs model text
-    rep = ctx.driver.ask('c04.write ' + model_mesh(fd))
-    t = C.Toks(rep)
-    if t.tok() != 'ok':
-        raise RuntimeError('driver: ' + rep[:300])
-    mlines = t.lst(lambda: C.unesc(t.tok()))
+    # (a) writer: real file vs model text, for each Cfg (exactly one must reproduce every file)
     rlines = text.split('\n')
     if rlines and rlines[-1] == '':
         rlines.pop()
-    if mlines != rlines:
-        k = next((i for i, (a, b) in enumerate(zip(mlines, rlines)) if a != b), min(len(mlines), len(rlines)))
-        ctx.disagree(f'{stream}: written file != model writer', brief(case),
-                     {'line': k, 'text': rlines[k:k + 2], 'n_lines': len(rlines)},
-                     {'line': k, 'text': mlines[k:k + 2], 'n_lines': len(mlines)})
+    enc = model_fem(fd)
+    for name, flag in CFGS.items():
+        rep = ctx.driver.ask(f'c04.write {flag} ' + enc)
+        t = C.Toks(rep)
+        if t.tok() != 'ok':
+            raise RuntimeError('driver: ' + rep[:300])
+        mlines = t.lst(lambda: C.unesc(t.tok()))
+        if mlines != rlines:
+            k = next((i for i, (a, b) in enumerate(zip(mlines, rlines)) if a != b), min(len(mlines), len(rlines)))
+            cfg_mismatch[name].append((f'{stream}: written file != model writer', brief(case),
+                                       {'line': k, 'text': rlines[k:k + 2], 'n_lines': len(rlines)},
+                                       {'line': k, 'text': mlines[k:k + 2], 'n_lines': len(mlines)}))
     # (b) reader: real reader vs model reader on the real file
     mread = dec_read(ctx.driver.ask('c04.read ' + C.enc_list(rlines, C.esc)))
     if obs is None or mread is None:
@@ -360,8 +377,9 @@ def run_case(ctx, case, stream='main'):
 
 def run(ctx):
     n_cases = ctx.n(220, 2500) if ctx.driver is not None else ctx.n(400, 3000)
+    cfg_mismatch = {c: [] for c in CFGS}
     for name, obj in C.corpus_cases(PROP):
-        run_case(ctx, from_json(obj['input']))
+        run_case(ctx, from_json(obj['input']), cfg_mismatch)
         ctx.count('corpus')
     for k in range(n_cases):
         case = gen_case(ctx.rng)
@@ -388,7 +406,7 @@ def run(ctx):
         ctx.count('values:denormal', sum(1 for x in vals if x == x and x != 0 and abs(x) < 2.2250738585072014e-308))
         ctx.count('values:|x|>=1e300', sum(1 for x in vals if x == x and not math.isinf(x) and abs(x) >= 1e300))
         ctx.count('values:total', len(vals))
-        run_case(ctx, case)
+        run_case(ctx, case, cfg_mismatch)
     # separate labelled stream (DESIGN section 5, F9): variables whose own id order differs from the mesh's.
     # Classified as outside the quantifier (see findings/C04-misaligned-variable-order.md); never reported via fail.
     for k in range(ctx.n(25, 200)):
@@ -396,7 +414,15 @@ def run(ctx):
         if not (case['nodal_vars'] or case['elem_vars']):
             continue
         ctx.count('stream F9-misaligned: cases')
-        run_case(ctx, case, stream='stream F9-misaligned')
+        run_case(ctx, case, cfg_mismatch, stream='stream F9-misaligned')
+    if ctx.driver is not None:
+        agree = [c for c in CFGS if not cfg_mismatch[c]]
+        ctx.extra['cfg_detected'] = agree
+        ctx.extra['cfg_mismatches'] = {c: len(v) for c, v in cfg_mismatch.items()}
+        if 'fixed' not in agree:
+            for what, b, impl, model in cfg_mismatch['fixed'][:10]:
+                ctx.disagree(what + ' Cfg.fixed' + (' (tree behaves as Cfg.upstream: F9)' if 'upstream' in agree else ''),
+                             b, impl, model)
     ctx.failures.sort(key=lambda f: (len(f['case']['nodes']), sum(len(b) for b in f['case']['blocks'].values())))
 
 
@@ -408,10 +434,12 @@ def replay(ctx, obj):
     out = {'case': brief(case), 'failures': found, 'fails': bool(found), 'file_head': (text or '').split('\n')[:6]}
     if ctx.driver is not None and text is not None:
         rlines = text.split('\n')[:-1]
-        rep = ctx.driver.ask('c04.write ' + model_mesh(fd))
-        t = C.Toks(rep)
-        t.tok()
-        out['model_writer_agrees'] = t.lst(lambda: C.unesc(t.tok())) == rlines
+        enc = model_fem(fd)
+        out['model_writer_agrees'] = {}
+        for name, flag in CFGS.items():
+            t = C.Toks(ctx.driver.ask(f'c04.write {flag} ' + enc))
+            t.tok()
+            out['model_writer_agrees']['Cfg.' + name] = t.lst(lambda: C.unesc(t.tok())) == rlines
         mread = dec_read(ctx.driver.ask('c04.read ' + C.enc_list(rlines, C.esc)))
         out['model_reader'] = None if mread is None else {'nodes': str(mread['nodes'])[:200], 'blocks': str(mread['blocks'])[:300]}
     return out
